@@ -1,7 +1,7 @@
 (** C06: truncation to the top bits with a sticky bit, followed by encode, is a single correct
     rounding: UBig/IBig::to_f32/to_f64 on the multi-word route and RBig::to_f32/to_f64. *)
 From Dashu Require Import Base.Prelude Float.RoundSpec Float.Contract Float.Model
-  Conv.ConvSpec Conv.ConvModel Conv.ConvArith Conv.ConvIeee Conv.ConvEncodeProofs.
+  Conv.ConvSpec Conv.ConvModel Conv.ConvArith Conv.ConvIeee Conv.ConvEncodeProofs Conv.ConvPrimProofs.
 Open Scope Z_scope.
 
 Lemma lor_1 t : 0 <= t -> Z.lor t 1 = 2 * (t / 2) + 1.
